@@ -24,8 +24,26 @@
  *          and returns exactly the previous or exactly the new image.
  *          Nothing is demanded when validation does not succeed.
  *   I/O fault (i,s): the i-th medium call of the operation transfers only its
- *       first s < len octets and returns s (s = 0: plain failure).
+ *       first s < len octets and returns s (s = 0: plain failure); or it
+ *       transfers nothing and answers with more than it was asked for (len+1,
+ *       SIZE_MAX = what a driver built on pread/pwrite hands back for -1, and
+ *       len+2^8, len+2^16, len+2^32: equal to the request in a narrower type).
  *       O: the operation returns PERSISTENT_ACCESS_IO_ERROR.
+ *       For store, store_part and reset a fresh instance then validates the
+ *       medium the failed operation left behind (x the 3 image pairs):
+ *       validate = success  =>  checksum octets = reference checksum of the data
+ *       image on the medium; if the failing call transferred nothing or was a
+ *       read (every write that happened is whole)  =>  fetch returns exactly the
+ *       previous or exactly the new image; if it was a torn write and the
+ *       library went on changing the medium after it: the mixed image it left
+ *       must not validate unless the torn state itself (medium at the moment of
+ *       the fault) already did - a failing store must not make a mixed image
+ *       valid by rewriting the checksum over it.
+ *
+ * Zero-length parts (offset 0..N, length 0) are stores/fetches too; a library
+ * that refuses them is accepted (class zero-length-refused, no cap).  A
+ * zero-length medium access touches no octet: inside the region at any address,
+ * and never the target of an over-long answer.
  *
  * Image pairs (previous P, new Q; both stored fault-free => valid) are chosen
  * so that the implication is not vacuous: besides a generic pair, one pair
@@ -154,6 +172,10 @@ static struct {
     int plan;
     long at;      /* PLAN_CUT: ordinal among write calls; PLAN_FAULT: among all calls */
     size_t t;     /* octets applied / transferred by the deviating call */
+    int over;     /* PLAN_FAULT: 0 short transfer of t octets; 1..NOVER nothing transferred,
+                     over-long answer (OVER_NAME) */
+    unsigned char *snap; /* region image at the moment the fault was injected */
+    bool snapped;
     bool fired;
     char fired_rw;
     size_t fired_len;
@@ -161,18 +183,41 @@ static struct {
     jmp_buf escape;
 } M;
 
+/* over-long answers of a failing driver (nothing is transferred): 1 len+1,
+ * 2 SIZE_MAX ((size_t)-1), 3..5 len+2^8 / len+2^16 / len+2^32 (equal to the
+ * request in a narrower type) */
+#define NOVER 5
+static const size_t OVER_EXCESS[NOVER + 1] = { 0, 1, 0, 256, 65536,
+#if SIZE_MAX > 0xffffffffu
+                                               (size_t)1 << 32
+#else
+                                               (size_t)1 << 24
+#endif
+};
+static const char *const OVER_NAME[NOVER + 1] = { "", "len+1", "SIZE_MAX", "len+256", "len+65536",
+#if SIZE_MAX > 0xffffffffu
+                                                  "len+2^32"
+#else
+                                                  "len+2^24"
+#endif
+};
+
 static bool
 med_inside(uint32_t addr, size_t n)
 {
     const uint64_t a = addr;
+    if (n == 0)
+        return true; /* touches no octet */
     return a >= M.lo && n <= M.size && (a - M.lo) <= (uint64_t)(M.size - n);
 }
 
-/* returns the number of octets this call is allowed to transfer (n normally);
- * does not return on a power cut after applying the prefix (writes only). */
+/* returns the number of octets this call transfers (n normally) and sets
+ * *answer to what the callback returns; does not return on a power cut after
+ * applying the prefix (writes only). */
 static size_t
-med_deviation(char rw, uint32_t addr, const void *src, size_t n)
+med_deviation(char rw, uint32_t addr, const void *src, size_t n, size_t *answer)
 {
+    *answer = n;
     const long call_no = M.calls++;
     const long write_no = (rw == 'w') ? M.writes++ : -1;
     mc_log("    medium %s addr=%lu len=%zu", rw == 'r' ? "read " : "write",
@@ -185,6 +230,7 @@ med_deviation(char rw, uint32_t addr, const void *src, size_t n)
         M.maxwrite = n;
     if (!med_inside(addr, n)) {
         M.outside++;
+        *answer = 0;
         return 0;
     }
     if (M.plan == PLAN_CUT && !M.fired && write_no == M.at && M.t <= n) {
@@ -196,32 +242,55 @@ med_deviation(char rw, uint32_t addr, const void *src, size_t n)
         mc_log("    POWER CUT after %zu of %zu octets", M.t, n);
         longjmp(M.escape, 1);
     }
-    if (M.plan == PLAN_FAULT && !M.fired && call_no == M.at && M.t < n) {
+    if (M.plan == PLAN_FAULT && !M.fired && call_no == M.at && M.over == 0 && M.t < n) {
         M.fired = true;
         M.fired_rw = rw;
         M.fired_len = n;
         mc_log("    FAULT: transfers %zu of %zu octets", M.t, n);
+        *answer = M.t;
         return M.t;
     }
+    if (M.plan == PLAN_FAULT && !M.fired && call_no == M.at && M.over != 0 && n > 0) {
+        M.fired = true;
+        M.fired_rw = rw;
+        M.fired_len = n;
+        *answer = (M.over == 2) ? SIZE_MAX : n + OVER_EXCESS[M.over];
+        mc_log("    FAULT: transfers nothing of %zu octets, answers %s", n, OVER_NAME[M.over]);
+        return 0;
+    }
     return n;
+}
+
+/* the region as the faulting call left it */
+static void
+med_snapshot(void)
+{
+    if (M.plan == PLAN_FAULT && M.fired && !M.snapped && M.snap) {
+        memcpy(M.snap, M.img, M.size);
+        M.snapped = true;
+    }
 }
 
 static size_t
 med_read(void *dst, uint32_t addr, size_t n)
 {
-    const size_t k = med_deviation('r', addr, NULL, n);
+    size_t answer;
+    const size_t k = med_deviation('r', addr, NULL, n, &answer);
     if (k)
         memcpy(dst, M.img + ((uint64_t)addr - M.lo), k);
-    return k;
+    med_snapshot();
+    return answer;
 }
 
 static size_t
 med_write(uint32_t addr, const void *src, size_t n)
 {
-    const size_t k = med_deviation('w', addr, src, n);
+    size_t answer;
+    const size_t k = med_deviation('w', addr, src, n, &answer);
     if (k)
         memcpy(M.img + ((uint64_t)addr - M.lo), src, k);
-    return k;
+    med_snapshot();
+    return answer;
 }
 
 /* ---- configuration ------------------------------------------------------------------------ */
@@ -317,6 +386,8 @@ precondition_failed(const char *what)
     }
 }
 
+static int next_over; /* kind of over-long answer of the next PLAN_FAULT operation (see M.over) */
+
 /* One library operation under deviation plan (plan, at, t).  Returns how the
  * call ended: 0 returned, 1 power cut, 2 call budget exhausted. */
 static int
@@ -331,6 +402,10 @@ run_op(struct inst *in, int op, void *buf, size_t off, size_t n, int plan, long 
     M.plan = plan;
     M.at = at;
     M.t = t;
+    M.over = (plan == PLAN_FAULT) ? next_over : 0;
+    next_over = 0;
+    if (plan == PLAN_FAULT)
+        M.snapped = false;
     M.fired = false;
     mc_log("  %s(off=%zu,n=%zu)", OPNAME[op], off, n);
     mc_trans(1);
@@ -393,6 +468,8 @@ world_make(struct world *w, const struct cfg *c, int pair, size_t off, size_t le
     M.lo = c->place;
     M.img = mc_exact(M.size);
     memset(M.img, 0xcd, M.size);
+    M.snap = mc_exact(M.size);
+    memset(M.snap, 0, M.size);
     inst_make(&w->in, c);
     make_pair(w->P, w->Q, c->N, pair);
     memcpy(w->New, w->P, c->N);
@@ -416,6 +493,8 @@ world_free(struct world *w)
     inst_free(&w->in);
     free(M.img);
     M.img = NULL;
+    free(M.snap);
+    M.snap = NULL;
 }
 
 /* the operation under deviation; src/dst blocks are exact */
@@ -465,10 +544,14 @@ crash_cases(const struct cfg *c, int op, size_t off, size_t len)
             struct world w;
             world_make(&w, c, pair, off, len);
             bool ok = w.ready;
+            bool refused0 = false;
             PersistentAccess rc = PERSISTENT_ACCESS_SUCCESS;
             if (ok) {
                 const int how = world_op(&w, c, op, off, len, PLAN_NONE, 0, 0, &rc);
-                if (how != 0 || M.outside || rc != PERSISTENT_ACCESS_SUCCESS
+                if (how == 0 && !M.outside && rc != PERSISTENT_ACCESS_SUCCESS && len == 0) {
+                    ok = false;
+                    refused0 = true;
+                } else if (how != 0 || M.outside || rc != PERSISTENT_ACCESS_SUCCESS
                     || (region_interps(M.img, cs, c->N, c->ck, w.New) & w.orders) == 0) {
                     precondition_failed("fault-free store of the new image");
                     ok = false;
@@ -482,7 +565,7 @@ crash_cases(const struct cfg *c, int op, size_t off, size_t len)
                 }
             }
             world_free(&w);
-            mc_end(ok, ok ? "dry-store-ok" : "precondition-failed");
+            mc_end(ok, ok ? "dry-store-ok" : refused0 ? "zero-length-refused" : "precondition-failed");
         }
         for (long wr = 0; wr < WCAP; ++wr)
             for (size_t t = 0; t <= tcap; ++t) {
@@ -549,22 +632,87 @@ crash_cases(const struct cfg *c, int op, size_t off, size_t len)
 
 /* ---- single I/O faults ------------------------------------------------------------------------------ */
 
+/* The medium a failed store / store_part / reset left behind, seen by a fresh
+ * instance after the next start.  Returns the outcome class when validation
+ * succeeded (NULL otherwise: nothing is demanded then). */
+static const char *
+after_fault(struct world *w, const struct cfg *c, int op, bool whole)
+{
+    const size_t cs = cks_size(c->ck);
+    const char *outcome = NULL;
+    mc_log_hex("  region at the fault", M.snap, M.size);
+    mc_log_hex("  region after the failed operation", M.img, M.size);
+    inst_free(&w->in);
+    inst_make(&w->in, c);
+    PersistentAccess v = PERSISTENT_ACCESS_IO_ERROR;
+    if (run_op(&w->in, OP_VALIDATE, NULL, 0, 0, PLAN_NONE, 0, 0, &v) != 0 || v != PERSISTENT_ACCESS_SUCCESS)
+        return NULL;
+    if ((region_interps(M.img, cs, c->N, c->ck, NULL) & w->orders) == 0) {
+        FAIL("C11/valid-implies-checksum-matches",
+             "validate succeeded after the failed %s although the checksum octets do not encode "
+             "%s(data image on the medium)", OPNAME[op], CKNAME[c->ck]);
+        return NULL;
+    }
+    if (op == OP_RESET)
+        return "fault-then-valid";
+    unsigned char *dst = mc_exact(c->N);
+    memset(dst, 0xee, c->N);
+    PersistentAccess f = PERSISTENT_ACCESS_IO_ERROR;
+    const int fhow = run_op(&w->in, OP_FETCH, dst, 0, 0, PLAN_NONE, 0, 0, &f);
+    mc_log_hex("  fetched", dst, c->N);
+    const bool got = fhow == 0 && f == PERSISTENT_ACCESS_SUCCESS;
+    const bool is_new = got && memcmp(dst, w->New, c->N) == 0;
+    const bool is_old = got && memcmp(dst, w->P, c->N) == 0;
+    free(dst);
+    if (is_new || is_old)
+        return is_new ? "fault-then-valid-new" : "fault-then-valid-old";
+    outcome = "fault-then-valid-mixed-consistent";
+    if (whole) {
+        FAIL("C11/whole-write-old-or-new",
+             "no medium write of the failed %s was torn, validate succeeded, but fetch (%s, rc=%d) "
+             "returned neither the previous nor the new image", OPNAME[op],
+             fhow ? "did not return" : "returned", (int)f);
+    } else if (M.snapped && memcmp(M.snap, M.img, M.size) != 0) {
+        /* torn write, and the library changed the medium after it: did the torn
+         * state validate by itself? */
+        unsigned char *now = mc_exact_copy(M.img, M.size);
+        memcpy(M.img, M.snap, M.size);
+        PersistentAccess v0 = PERSISTENT_ACCESS_IO_ERROR;
+        const int vhow = run_op(&w->in, OP_VALIDATE, NULL, 0, 0, PLAN_NONE, 0, 0, &v0);
+        memcpy(M.img, now, M.size);
+        free(now);
+        if (vhow != 0 || v0 != PERSISTENT_ACCESS_SUCCESS)
+            FAIL("C11/failing-store-validates-mixed-image",
+                 "the medium write of %s was torn, the torn state did not validate, but what the failed "
+                 "operation wrote afterwards makes the mixed image (neither previous nor new) validate",
+                 OPNAME[op]);
+    }
+    return outcome;
+}
+
 static void
 fault_cases(const struct cfg *c, int op, size_t off, size_t len)
 {
     const size_t cs = cks_size(c->ck);
     const long icap = (long)(c->N + cs) + 2;      /* >= calls of any operation, octet-wise */
     const size_t scap = c->N > cs ? c->N : cs;    /* >= length of any call */
+    const bool stores = (op == OP_STORE || op == OP_STORE_PART || op == OP_RESET);
+    const int npairs = (op == OP_STORE || op == OP_STORE_PART) ? NPAIRS : 1;
+    const bool zero_len = (op == OP_STORE_PART || op == OP_FETCH_PART) && len == 0;
     char od[64];
     opdesc(od, sizeof od, op, off, len);
     if (mc_case(CFGFMT " io-dry %s", CFGARG(c), od)) {
         struct world w;
         world_make(&w, c, 0, off, len);
         bool ok = w.ready;
+        const char *outcome = "precondition-failed";
         PersistentAccess rc = PERSISTENT_ACCESS_SUCCESS;
         if (ok) {
             const int how = world_op(&w, c, op, off, len, PLAN_NONE, 0, 0, &rc);
-            if (how != 0 || M.outside || rc != PERSISTENT_ACCESS_SUCCESS) {
+            if (how == 0 && !M.outside && rc != PERSISTENT_ACCESS_SUCCESS && zero_len) {
+                ok = false;
+                outcome = "zero-length-refused";
+            } else if (how != 0 || M.outside || rc != PERSISTENT_ACCESS_SUCCESS) {
                 precondition_failed("operation fails on a fault-free medium");
                 ok = false;
             } else {
@@ -577,47 +725,65 @@ fault_cases(const struct cfg *c, int op, size_t off, size_t len)
             }
         }
         world_free(&w);
-        mc_end(ok, ok ? "dry-op-ok" : "precondition-failed");
+        mc_end(ok, ok ? "dry-op-ok" : outcome);
     }
-    for (long i = 0; i < icap; ++i)
-        for (size_t s = 0; s < scap; ++s) {
-            if (!mc_case(CFGFMT " io %s fault-in-call=%ld transfers=%zu", CFGARG(c), od, i, s))
-                continue;
-            struct world w;
-            world_make(&w, c, 0, off, len);
-            const char *outcome = "precondition-failed";
-            bool nontrivial = false;
-            PersistentAccess rc = PERSISTENT_ACCESS_SUCCESS;
-            int how = -1;
-            if (w.ready)
-                how = world_op(&w, c, op, off, len, PLAN_FAULT, i, s, &rc);
-            if (how == 2 && !M.fired) {
-                precondition_failed("operation does not return on a fault-free medium");
-            } else if (how == 2) {
-                nontrivial = true;
-                FAIL("C11/hang",
-                     "%s did not return within %ld medium calls after a medium %s of %zu octets "
-                     "transferred %zu: the fault is never reported", od, M.budget,
-                     M.fired_rw == 'r' ? "read" : "write", M.fired_len, s);
-            } else if (how == 0 && !M.fired) {
-                outcome = "fault-not-reached";
-            } else if (how == 0) {
-                nontrivial = true;
-                if (rc == PERSISTENT_ACCESS_SUCCESS)
-                    FAIL("C11/io-fault-never-success",
-                         "%s returned success although its medium %s of %zu octets transferred %zu",
-                         od, M.fired_rw == 'r' ? "read" : "write", M.fired_len, s);
-                else if (rc != PERSISTENT_ACCESS_IO_ERROR)
-                    FAIL("C11/io-fault-reported-as-io-error",
-                         "%s returned %d, not the I/O error code, after a medium %s of %zu octets "
-                         "transferred %zu", od, (int)rc, M.fired_rw == 'r' ? "read" : "write",
-                         M.fired_len, s);
-                outcome = (M.fired_rw == 'r') ? (s ? "io-error-short-read" : "io-error-failed-read")
-                                              : (s ? "io-error-short-write" : "io-error-failed-write");
+    for (int pair = 0; pair < npairs; ++pair)
+        for (long i = 0; i < icap; ++i)
+            for (size_t sc = 0; sc < scap + NOVER; ++sc) {
+                const int over = sc < scap ? 0 : (int)(sc - scap) + 1;
+                const size_t s = over ? 0 : sc;
+                if (!mc_case(CFGFMT " io %s pair=%s fault-in-call=%ld transfers=%zu%s%s", CFGARG(c), od,
+                             PAIRNAME[pair], i, s, over ? " answers=" : "", OVER_NAME[over]))
+                    continue;
+                struct world w;
+                world_make(&w, c, pair, off, len);
+                const char *outcome = "precondition-failed";
+                bool nontrivial = false;
+                PersistentAccess rc = PERSISTENT_ACCESS_SUCCESS;
+                int how = -1;
+                if (w.ready) {
+                    next_over = over;
+                    how = world_op(&w, c, op, off, len, PLAN_FAULT, i, s, &rc);
+                }
+                const char *answered = over ? "answered more than asked with nothing transferred"
+                                            : "transferred short";
+                if (how == 2 && !M.fired) {
+                    precondition_failed("operation does not return on a fault-free medium");
+                } else if (how == 2) {
+                    nontrivial = true;
+                    FAIL("C11/hang",
+                         "%s did not return within %ld medium calls after a medium %s of %zu octets "
+                         "%s (%zu): the fault is never reported", od, M.budget,
+                         M.fired_rw == 'r' ? "read" : "write", M.fired_len, answered, s);
+                } else if (how == 0 && !M.fired) {
+                    outcome = "fault-not-reached";
+                } else if (how == 0) {
+                    nontrivial = true;
+                    if (rc == PERSISTENT_ACCESS_SUCCESS)
+                        FAIL("C11/io-fault-never-success",
+                             "%s returned success although its medium %s of %zu octets %s (%zu)",
+                             od, M.fired_rw == 'r' ? "read" : "write", M.fired_len, answered, s);
+                    else if (rc != PERSISTENT_ACCESS_IO_ERROR)
+                        FAIL("C11/io-fault-reported-as-io-error",
+                             "%s returned %d, not the I/O error code, after a medium %s of %zu octets "
+                             "%s (%zu)", od, (int)rc, M.fired_rw == 'r' ? "read" : "write",
+                             M.fired_len, answered, s);
+                    if (M.fired_rw == 'r')
+                        outcome = over ? "io-error-overlong-read"
+                                       : (s ? "io-error-short-read" : "io-error-failed-read");
+                    else
+                        outcome = over ? "io-error-overlong-write"
+                                       : (s ? "io-error-short-write" : "io-error-failed-write");
+                    if (stores && !failed_here) {
+                        const bool whole = (M.fired_rw == 'r') || s == 0;
+                        const char *o = after_fault(&w, c, op, whole);
+                        if (o)
+                            outcome = o;
+                    }
+                }
+                world_free(&w);
+                mc_end(nontrivial && !failed_here, failed_here ? "failed" : outcome);
             }
-            world_free(&w);
-            mc_end(nontrivial && !failed_here, failed_here ? "failed" : outcome);
-        }
 }
 
 /* ---- anchors ------------------------------------------------------------------------------------------ */
@@ -654,15 +820,18 @@ anchors(void)
         }
 }
 
+#define PLACE_TOP 0xffffffffu /* marker: the region ends exactly at 2^32 */
+
 int
 main(int argc, char **argv)
 {
     mc_init(argc, argv);
     anchors();
-    static const uint32_t PLACES_Q[] = { 0u, 100u };
-    static const uint32_t PLACES_T[] = { 0u, 1u, 7u, 100u };
+    static const uint32_t PLACES_Q[] = { 0u, 100u, PLACE_TOP };
+    /* 0xfffd / 0x7ffffffd: the region straddles 2^16 / 2^31 */
+    static const uint32_t PLACES_T[] = { 0u, 1u, 7u, 100u, 0xfffdu, 0x7ffffffdu, PLACE_TOP };
     const uint32_t *places = mc_thorough() ? PLACES_T : PLACES_Q;
-    const int nplaces = mc_thorough() ? 4 : 2;
+    const int nplaces = mc_thorough() ? 7 : 3;
     const size_t nmax = mc_thorough() ? 14 : 8;
     struct cfg c;
     for (c.N = 1; c.N <= nmax; ++c.N) {
@@ -682,12 +851,14 @@ main(int argc, char **argv)
         for (int pi = 0; pi < nplaces; ++pi)
             for (c.ck = 0; c.ck < CK_KINDS; ++c.ck)
                 for (int bi = 0; bi < nb; ++bi) {
-                    c.place = places[pi];
+                    c.place = places[pi] == PLACE_TOP
+                                  ? (uint32_t)(0x100000000ull - (cks_size(c.ck) + c.N))
+                                  : places[pi];
                     c.buf = bufs[bi];
-                    /* power cuts: every store */
+                    /* power cuts: every store (parts include length 0 at offsets 0..N) */
                     crash_cases(&c, OP_STORE, 0, c.N);
-                    for (size_t off = 0; off < c.N; ++off)
-                        for (size_t len = 1; off + len <= c.N; ++len)
+                    for (size_t off = 0; off <= c.N; ++off)
+                        for (size_t len = 0; off + len <= c.N; ++len)
                             if (!(off == 0 && len == c.N))
                                 crash_cases(&c, OP_STORE_PART, off, len);
                     crash_cases(&c, OP_STORE_PART, 0, c.N);
@@ -696,19 +867,22 @@ main(int argc, char **argv)
                     fault_cases(&c, OP_VALIDATE, 0, 0);
                     fault_cases(&c, OP_FETCH, 0, c.N);
                     fault_cases(&c, OP_RESET, 0, 0);
-                    for (size_t off = 0; off < c.N; ++off)
-                        for (size_t len = 1; off + len <= c.N; ++len) {
+                    for (size_t off = 0; off <= c.N; ++off)
+                        for (size_t len = 0; off + len <= c.N; ++len) {
                             fault_cases(&c, OP_STORE_PART, off, len);
                             fault_cases(&c, OP_FETCH_PART, off, len);
                         }
                 }
     }
-    char bound[400];
+    char bound[800];
     snprintf(bound, sizeof bound,
              "data sizes 1..%zu x placements %s x {default sum16, CRC-16/ARC, sum32} x auxiliary buffer %s: "
-             "every store / store_part(offset,len) x 3 image pairs x every write call x every t in 0..len; "
-             "every operation x every medium call x every short count 0..len-1 (one fault per execution)",
-             nmax, mc_thorough() ? "{0,1,7,100}" : "{0,100}",
+             "every store / store_part(offset,len>=0) x 3 image pairs x every write call x every t in 0..len; "
+             "every operation (parts incl. length 0) x every medium call x every short count 0..len-1 and the "
+             "over-long answers len+1, SIZE_MAX, len+2^8, len+2^16, len+2^32 (one fault per execution), stores x 3 image pairs with a "
+             "fresh validate/fetch of the medium the failed operation left",
+             nmax, mc_thorough() ? "{0,1,7,100,straddling 2^16,straddling 2^31,ending at 2^32}"
+                                 : "{0,100,ending at 2^32}",
              mc_thorough() ? "{none,1,2,3,N-1,N,N+1}" : "{none,1,3,N}");
     mc_finish(true, bound);
     return 0;
